@@ -30,12 +30,12 @@ Fail(p, prop, clause, r, detail) == PrintT(ToJson(<<"VFAIL", prop, Programs[p].i
 \* ---- C02 inside nested bodies: a read that obtains the value bound at a site of ITS OWN body lists that site -----------
 PN(p, i) == Programs[p].nodes[i]
 PS(p, i) == Programs[p].scopes[i]
-BindNodes(p, v) == {i \in 1..Len(Programs[p].nodes) : PN(p, i).k \in BindKinds \cup {"wbind"} /\ PN(p, i).s = v}
+BindNodes(p, v) == {i \in 1..Len(Programs[p].nodes) : PN(p, i).k \in BindKinds \cup {"wbind", "wdef"} /\ PN(p, i).s = v}
 ParamScopes(p, v) == {sc \in 1..Len(Programs[p].scopes) : \E j \in 1..Len(PS(p, sc).params) : PS(p, sc).params[j].s = v}
 RECURSIVE PNonComp(_, _)
 PNonComp(p, sc) == IF PS(p, sc).kind = "comp" THEN PNonComp(p, PS(p, sc).parent) ELSE sc
 SiteScope(p, v) == IF BindNodes(p, v) # {}
-                   THEN LET i == CHOOSE j \in BindNodes(p, v) : TRUE IN IF PN(p, i).k = "wbind" THEN PNonComp(p, PN(p, i).o) ELSE PN(p, i).o
+                   THEN LET i == CHOOSE j \in BindNodes(p, v) : TRUE IN IF PN(p, i).k \in {"wbind", "wdef"} THEN PNonComp(p, PN(p, i).o) ELSE PN(p, i).o
                    ELSE IF ParamScopes(p, v) # {} THEN CHOOSE sc \in ParamScopes(p, v) : TRUE ELSE 0
 ReadNodes(p, r) == {i \in 1..Len(Programs[p].nodes) : PN(p, i).k \in {"read", "call"} /\ PN(p, i).s = r}
 ReadScope(p, r) == PN(p, CHOOSE i \in ReadNodes(p, r) : TRUE).o
